@@ -6,7 +6,7 @@ From DV Require Import Lib.Base Monitor.Monitor Spec.MonitorSpec Proofs.MonitorB
 Local Open Scope N_scope.
 
 Definition core (st : state) : state :=
-  mkState (filter (fun c => negb (is_monitor st c)) (st_conns st)) (st_next st) (st_own st) (st_rules st) [] [] (st_pend st).
+  upd st (filter (fun c => negb (is_monitor st c)) (st_conns st)) (st_next st) (st_own st) (st_rules st) [] [] (st_pend st).
 
 Definition erase (it : item) : item :=
   mkItem [] (i_from it) (i_addr it) (i_msg it) (i_local it) [] (i_direct it) (i_match it).
@@ -169,7 +169,7 @@ Qed.
 Lemma add_match_erase c s f : is_monitor st c = false -> res_sim (add_match (core st) c s f) (add_match st c s f).
 Proof.
   intros Hc. unfold add_match, res_sim. simpl. split; auto.
-  set (st' := mkState (st_conns st) (st_next st) (st_own st) (st_rules st ++ [(c, f)]) (st_mrules st) (st_mons st) (st_pend st)).
+  set (st' := upd st (st_conns st) (st_next st) (st_own st) (st_rules st ++ [(c, f)]) (st_mrules st) (st_mons st) (st_pend st)).
   rewrite <- (from_driver_erase st' c _ Hc). reflexivity.
 Qed.
 
@@ -264,9 +264,9 @@ Proof.
   - simpl. unfold core, set_own. simpl. f_equal. unfold is_monitor. simpl.
     rewrite filter_app. simpl. unfold is_monitor in Hf. rewrite Hf. reflexivity.
   - simpl.
-    set (st1 := mkState (st_conns st ++ [st_next st]) (st_next st + 1) (st_own st) (st_rules st) (st_mrules st) (st_mons st) (st_pend st)).
+    set (st1 := upd st (st_conns st ++ [st_next st]) (st_next st + 1) (st_own st) (st_rules st) (st_mrules st) (st_mons st) (st_pend st)).
     assert (Hf1 : is_monitor st1 (st_next st) = false) by exact Hf.
-    assert (Ec : core st1 = mkState (st_conns (core st) ++ [st_next st]) (st_next st + 1) (st_own st) (st_rules st) [] [] (st_pend st)).
+    assert (Ec : core st1 = upd st (st_conns (core st) ++ [st_next st]) (st_next st + 1) (st_own st) (st_rules st) [] [] (st_pend st)).
     { unfold core, st1. simpl. f_equal. unfold is_monitor. simpl. rewrite filter_app. simpl.
       unfold is_monitor in Hf. rewrite Hf. reflexivity. }
     simpl in Ec. rewrite <- Ec.
@@ -277,9 +277,9 @@ Lemma disconnect_ordinary_erase st c :
   clean (is_monitor st) st -> is_monitor st c = false -> res_sim (disconnect (core st) c) (disconnect st c).
 Proof.
   intros C Hc. unfold disconnect. rewrite Hc, is_monitor_core.
-  set (st1 := mkState (filter (fun x => negb (x =? c)) (st_conns st)) (st_next st) (st_own st)
+  set (st1 := upd st (filter (fun x => negb (x =? c)) (st_conns st)) (st_next st) (st_own st)
                       (drop_rules (st_rules st) c) (st_mrules st) (st_mons st) (st_pend st)).
-  assert (E1 : mkState (filter (fun x => negb (x =? c)) (st_conns (core st))) (st_next (core st)) (st_own (core st))
+  assert (E1 : upd (core st) (filter (fun x => negb (x =? c)) (st_conns (core st))) (st_next (core st)) (st_own (core st))
                        (drop_rules (st_rules (core st)) c) (st_mrules (core st)) (st_mons (core st)) (st_pend (core st)) = core st1).
   { unfold core, st1. simpl. f_equal. rewrite !filter_filter. apply filter_ext. intros x. apply andb_comm. }
   rewrite E1.
@@ -317,9 +317,9 @@ Lemma become_monitor_erase st c s fs :
 Proof.
   intros C Hc. unfold become_monitor.
   set (fs' := match fs with [] => [empty_filter] | _ => fs end).
-  set (st1 := mkState (st_conns st) (st_next st) (st_own st) (st_rules st)
+  set (st1 := upd st (st_conns st) (st_next st) (st_own st) (st_rules st)
                       (st_mrules st ++ map (fun f => (c, f)) fs') (st_mons st) (st_pend st)).
-  set (st1' := mkState (st_conns (core st)) (st_next (core st)) (st_own (core st)) (st_rules (core st))
+  set (st1' := upd (core st) (st_conns (core st)) (st_next (core st)) (st_own (core st)) (st_rules (core st))
                        (st_mrules (core st) ++ map (fun f => (c, f)) fs') (st_mons (core st)) (st_pend (core st))).
   assert (C1 : clean (is_monitor st1) st1) by exact C.
   assert (Hc1 : is_monitor st1 c = false) by exact Hc.
@@ -353,8 +353,8 @@ Proof.
   destruct (release_all st1 c (owned (st_own st1) c)) as [s2 rel] eqn:E2.
   simpl in H1, H2, R1, R2.
   pose proof (release_all_state st1 c (owned (st_own st1) c)) as Hs. rewrite E2 in Hs. simpl in Hs.
-  set (st3 := mkState (st_conns s2) (st_next s2) (st_own s2) (drop_rules (st_rules s2) c) (st_mrules s2) (st_mons s2 ++ [c]) (st_pend s2)).
-  set (st3' := mkState (st_conns s2') (st_next s2') (st_own s2') (drop_rules (st_rules s2') c) (st_mrules s2') (st_mons s2' ++ [c]) (st_pend s2')).
+  set (st3 := upd s2 (st_conns s2) (st_next s2) (st_own s2) (drop_rules (st_rules s2) c) (st_mrules s2) (st_mons s2 ++ [c]) (st_pend s2)).
+  set (st3' := upd s2' (st_conns s2') (st_next s2') (st_own s2') (drop_rules (st_rules s2') c) (st_mrules s2') (st_mons s2' ++ [c]) (st_pend s2')).
   split.
   - (* states *)
     simpl. unfold noreply_items. simpl. unfold core. simpl. subst st3 st3' s2 s2'. simpl. f_equal.
